@@ -7,16 +7,23 @@
    code defined by OpenFlow 1.3 or the Nicira extensions.  A receiver that walks the message using only the declared
    lengths therefore visits every element and arrives exactly at the end of the message."
 
-  Reading of the statements (all about the bytes `bs` that `K.marshalM v = .ok (bs, _)` returns):
+  Reading of the statements (all about the bytes `bs` that `K.marshalM v = .ok (bs, _)` returns; vocabulary `TLV`,
+  `NXw` / `NX`, `ahdr`, `nxhdr`, `ihdr` in OFV/Lemmas/ElemWire.lean, `walkBy` in OFV/Lemmas/ElemFill.lean):
   * `…_wire`  — for EVERY value of the kind: which stored fields appear at the type / length / vendor / subtype
                 offsets (`Spec.beAt bs off width`), and how many bytes there are.  No well-formedness hypothesis.
   * well-formedness is explicit: `ahdr v = some (code, N)` / `nxhdr v = some (0xffff, N, 0x2320, subtype)` — "the
     stored header is what the constructor stored" — and `…_new_wf` show that the constructors establish it.
+    `OxmWF` (match fields), `C02.MatchWF` (matches), `ActionWF` / `InstrWF` (through the interfaces).
   * `…_ok`    — for well-formed values: (a) declared length = occupied bytes, (b) multiple of 8 (and zero padding
                 where the kind has padding), (c) the type code (and Nicira vendor / subtype) of the specification.
-  * `walk…`   — a receiver that only follows declared lengths (`Elem.walkBy`) visits exactly the children's encodings
-                of a composite and ends at its last byte.
-  * where a statement is FALSE for a value the API can build, the counterexample is proved (`…_counterexample`).
+  * `action_declares`, `instruction_declares` — (a)+(b) through the Action / Instruction interface dispatch.
+  * `…_walk`  — a receiver that only follows declared lengths (`Elem.walkBy`) visits exactly the children's encodings
+                of a composite (InstrActions, Bucket, conntrack action, FlowMod) and ends at its last byte.
+  * where a statement is FALSE for a value the API can build, the counterexample is proved
+    (`tunMetadata_counterexample`); known stubs: `actionHeader_wire`, `instrMeter_unaligned`, `helloElem_aligned_iff`.
+  * sizes are computed in uint16 by the library: statements that need "no wrap-around" say so explicitly
+    (`bs.length < 65536`, `10 ≤ bs.length`, a bound on the data).
+  Not covered here: hello element lists / TLV map lists as walks, the message embedded in a BundleAdd.
 -/
 import OFV.Model.All
 import OFV.Lemmas.Size
